@@ -7,6 +7,7 @@ import MxModel.Proofs.ExecResolveSM
 import MxModel.Proofs.ExecCertExamples
 import MxModel.Proofs.EditMachineInputs
 import MxModel.Proofs.EditMachineGlobalsExamples
+import MxModel.Proofs.EditMachineRenameExamples
 /-!
 # C02 – no stale value survives any edit
 
@@ -1181,6 +1182,169 @@ theorem derived_ref_shadowing_a_global_is_covered_only_with_shadow_clears :
     Edit.refPay (shTabs false) (shSt false) ["S"] "r" = some 1 ∧ Edit.refPay (shTabs false) (shSt' false) ["S"] "r" = some 5 ∧
     Edit.covered (shTabs false) (shSt false) (shSt' false) (Edit.clearingG [] (shTabs false) (shSt false) (shSt' false) shOp) = true ∧
     Edit.covered (shTabs false) (shSt false) (shSt' false) (Edit.clearing [] (shTabs false) (shSt false) (shSt' false) shOp) = false := by
+  decide
+
+/-! ### `space.rename(new)` in the combined machine (`Edit/MachineRename.lean`: `OpR` / `stepR`)
+
+`SpaceManager.rename_space` + `UserSpaceImpl.on_rename`: the structure is relabelled (`SM.St.renameSpace`), the
+identities of the members follow (the cells OBJECTS survive a rename), and every cells of the renamed space and
+of every space below it loses ALL values INCLUDING its inputs (`clear_all_cells(clear_input=True,
+recursive=True)`; an uncached one is cleared as an object: /repo d7248bc), then the parent's namespace notifies.
+
+What a rename changes, as far as `SProg` over `Ns` can express it: NOTHING (`rename_changes_no_definition`) – a
+child space binds to no value in the parent's namespace before (old name) and after (new name, which was free:
+`_can_add`), every other binding is an identity and identities are kept.  What a formula can read outside this
+language is the NAME of its space (`_space.name`, `fullname`); the coverage demanded of the clearing is therefore
+"every cells of every renamed space is cleared as an object, the parent's cells are notified" (`renameCovered`).
+
+A DECLARED attribute slot keeps its spelling through the rename (`Edit.Tabs.spell`): a formula elsewhere that
+spells `S.x` reaches the space through an object-valued reference, which follows the OBJECT; `_space.x` follows
+the space.  So there is no side condition on slots. -/
+
+/-- **An accepted rename changes no definition the executor sees**: formula of every cells (source resolved in
+the namespace of its space), flags, value of every reference, observers – equal as `Env`s, for every identity. -/
+theorem rename_changes_no_definition (P : Edit.Params) (t : Edit.Tabs) (st st' : SM.St) (h : SM.Inv st)
+    (p : SM.Path) (new : String) (hop : st.renameSpace P.kw p new = .ok st') :
+    Edit.envOf P (t.mapPaths (Edit.renameMap p new)) st' = Edit.envOf P t st :=
+  Edit.envOf_renameSpace P t st st' h p new hop
+
+/-- **Coverage for the rename**: the clearing the code performs clears every cells of the renamed space and of
+every space below it as an object and notifies the cells of the parent (no hypothesis); and a clearing that does
+leaves no node, no value computed through them and NO INPUT of those cells – the inputs of the renamed tree are
+DISCARDED by the code, so the model discards them. -/
+theorem rename_clearing_covers (t : Edit.Tabs) (st : SM.St) (p : SM.Path) :
+    Edit.renameCovered t st p (Edit.renameClearing t st p) = true :=
+  Edit.renameCovered_renameClearing t st p
+
+theorem covered_rename_leaves_nothing_of_the_renamed_spaces (env : Env) (lt : Node → Node → Prop)
+    (hsc : Scoped env) (hnc : NoCatchEnv env)
+    (t : Edit.Tabs) (st : SM.St) (p : SM.Path) (cl : List Edit.Clear) (s : Exec.St) (hci : CI env lt s)
+    (hr : RgNoInputs s) (hcov : Edit.renameCovered t st p cl = true) :
+    (∀ r ∈ Edit.renamed st p, ∀ c ∈ Edit.cellsOf t st r, Edit.NoNodes (Edit.doClears env s cl) c ∧
+      ∀ key, inpOf (Edit.doClears env s cl) (c, key) = none) ∧
+    (∀ c ∈ Edit.cellsOf t st p.dropLast, Edit.Clean (Edit.doClears env s cl) c) :=
+  Edit.renameCovered_sound env hsc hnc t st p cl s hci hr hcov
+
+/-- **Every operation of the machine with renames keeps the invariant** – for the definitions of the NEW
+structure under the NEW paths. -/
+theorem machineR_keeps_ci (P : Edit.Params) (lt : Node → Node → Prop) (ho : StrictOrder lt) (w : Edit.W)
+    (op : Edit.OpR) (hw : WF (w.env P) lt) (h : Edit.CIG P lt w) :
+    Edit.CIG P lt (Edit.stepR P w op) :=
+  Edit.stepR_cig ho w op hw h
+
+theorem machineR_reachable_ci (P : Edit.Params) (lt : Node → Node → Prop) (ho : StrictOrder lt)
+    (slots : List (SM.Path × String)) (ops : List Edit.OpR) (hadm : Edit.AdmissibleR P lt (Edit.W.init slots) ops) :
+    Edit.CIG P lt (Edit.runR P (Edit.W.init slots) ops) ∧ WF ((Edit.runR P (Edit.W.init slots) ops).env P) lt :=
+  Edit.runR_cig ho ops _ (Edit.wf_init P lt slots) (Edit.cig_init P lt slots) hadm
+
+/-- after any history of structural edits, model-level references, value operations AND renames of spaces every
+held value is the denotation under the current structure -/
+theorem no_stale_value_after_any_history_with_renames (P : Edit.Params) (lt : Node → Node → Prop)
+    (ho : StrictOrder lt) (slots : List (SM.Path × String)) (ops : List Edit.OpR)
+    (hadm : Edit.AdmissibleR P lt (Edit.W.init slots) ops) :
+    Good ((Edit.runR P (Edit.W.init slots) ops).env P) (inpOf (Edit.runR P (Edit.W.init slots) ops).ex)
+      (Edit.runR P (Edit.W.init slots) ops).ex :=
+  (machineR_reachable_ci P lt ho slots ops hadm).1.ci.good
+
+/-- **The headline with renames**: the value a later call returns equals the value returned by the model that
+ran the same history with every evaluation removed – "the same inputs" meaning: the edits-only model discards
+the inputs of a renamed tree too, as the code does (`Edit.stepR`).  Hypotheses about the live run only. -/
+theorem live_equals_edits_only_with_renames (P : Edit.Params) (lt : Node → Node → Prop) (ho : StrictOrder lt)
+    (slots : List (SM.Path × String)) (ops : List Edit.OpR) (hadm : Edit.AdmissibleR P lt (Edit.W.init slots) ops)
+    (q : SM.Path) (n : String) (key : Key) (v v' : Val)
+    (h1 : Edit.answer P (Edit.runR P (Edit.W.init slots) ops) q n key = some (.ok v))
+    (h2 : Edit.answer P (Edit.runR P (Edit.W.init slots) (Edit.noEvalsR ops)) q n key = some (.ok v')) : v = v' := by
+  have hr0 : RgNoInputs (Edit.W.init slots).ex := fun e he => by simp [Edit.W.init] at he
+  obtain ⟨hs, c1, c2, hwf⟩ := Edit.runR_sim ho ops _ _ (Edit.wf_init P lt slots) (Edit.cig_init P lt slots)
+    (Edit.cig_init P lt slots) hr0 hr0 ⟨rfl, rfl, rfl⟩ hadm
+  have henv := hs.env_eq P
+  unfold Edit.answer at h1 h2
+  split at h1
+  · split at h2
+    · simp only [Option.some.injEq] at h1 h2
+      rw [henv, hs.tabs] at h2
+      have a := (C01.eval_value_is_denotation_nocatch_partial _ _ hwf.noCatch _ _ c1.ci.good).1 v h1
+      have hg2 : Good ((Edit.runR P (Edit.W.init slots) ops).env P) (inpOf (Edit.runR P (Edit.W.init slots) ops).ex)
+          (Edit.runR P (Edit.W.init slots) (Edit.noEvalsR ops)).ex := by
+        have := c2.ci.good
+        rw [henv, hs.inp] at this
+        exact this
+      have b := (C01.eval_value_is_denotation_nocatch_partial _ _ hwf.noCatch _ _ hg2).1 v' h2
+      have := Den_det _ _ _ _ _ a b
+      cases this; rfl
+    · cases h2
+  · cases h1
+
+/-- how the hypotheses are guaranteed: no declared slot, sources that catch nothing, read plain names and call
+nothing ⇒ EVERY history with renames is admissible -/
+theorem histories_admissibleR_from_sources (P : Edit.Params) (lt : Node → Node → Prop) (ho : StrictOrder lt)
+    (hnc : ∀ v key, Edit.NsNoCatch (P.srcOf v key)) (hsc : ∀ v key, Edit.NsScoped (P.srcOf v key))
+    (hcalls : ∀ v key, Edit.NsNoCalls (P.srcOf v key)) (ops : List Edit.OpR) :
+    Edit.AdmissibleR P lt (Edit.W.init []) ops :=
+  Edit.admissibleR_of_sources P lt ho hnc hsc hcalls ops _ (Edit.cig_init P lt []) (Edit.wf_init P lt []) rfl
+
+/-- the same for sources that read references through attribute paths only (declared slots – in renamed spaces
+too), call nothing and catch nothing -/
+theorem histories_admissibleR_from_attr_sources (P : Edit.Params) (lt : Node → Node → Prop)
+    (hnc : ∀ v key, Edit.NsNoCatch (P.srcOf v key)) (hao : ∀ v key, Edit.NsAttrOnly (P.srcOf v key))
+    (hcalls : ∀ v key, Edit.NsNoCalls (P.srcOf v key)) (slots : List (SM.Path × String)) (ops : List Edit.OpR) :
+    Edit.AdmissibleR P lt (Edit.W.init slots) ops :=
+  Edit.admissibleR_of_attr_sources P lt hnc hao hcalls ops _
+
+/-! A slot in a renamed space (`Edit.sOps`; every cells is `lambda: S.x`, slot `(S, x)`): `m.x = 1`; `T.c() = 1`;
+`S.rename("Z")`: `T.c` keeps 1 (nothing it depends on changed), the slot is now `(Z, x)`, still spelled `S.x`;
+`Z.x = 5` clears the reader through the same slot identity; `T.c() = 5`. -/
+example : Edit.CIG Edit.gP idLt (Edit.runR Edit.gP (Edit.W.init Edit.gSlots) Edit.sOps) :=
+  (machineR_reachable_ci Edit.gP idLt idLt_strict Edit.gSlots Edit.sOps Edit.sOps_admissible).1
+
+example :
+    (Edit.runR Edit.gP (Edit.W.init Edit.gSlots) (Edit.sOps.take 6)).ex.data = [((0, []), .int 1)] ∧
+    (Edit.runR Edit.gP (Edit.W.init Edit.gSlots) (Edit.sOps.take 6)).tabs.slots = [(["Z"], "x")] ∧
+    (Edit.runR Edit.gP (Edit.W.init Edit.gSlots) (Edit.sOps.take 6)).tabs.spell = [(["Z"], ["S"])] ∧
+    (Edit.runR Edit.gP (Edit.W.init Edit.gSlots) (Edit.sOps.take 8)).ex.data = [] ∧
+    Edit.answer Edit.gP (Edit.runR Edit.gP (Edit.W.init Edit.gSlots) Edit.sOps) ["T"] "c" [] = some (.ok (.int 5)) := by
+  decide
+
+/-! Non-vacuity (`Edit.rOps`, sources `y * 2`): `A` (`f`, `y = 1`) with child `A.Ch` (`g`, `y = 2`), `T(A)`;
+`A.f() = 2`, `A.Ch.g() = 4`, `T.f() = 2`, `A.f[1] = 7` (an input); `A.rename("Z")` is covered, discards everything
+`A` and `A.Ch` hold – the input too – and keeps what the sub space `T` holds; the identities now live under the
+new paths; `Z.f() = 2`, `Z.Ch.g() = 4`, there is no `A.f`; the edits-only model answers the same. -/
+example : Edit.CIG Edit.eP idLt (Edit.runR Edit.eP (Edit.W.init []) Edit.rOps) :=
+  (machineR_reachable_ci Edit.eP idLt idLt_strict [] Edit.rOps Edit.rOps_admissible).1
+
+example :
+    (Edit.runR Edit.eP (Edit.W.init []) (Edit.rOps.take 11)).ex.data =
+      [((0, [.int 1]), .int 7), ((2, []), .int 2), ((1, []), .int 4), ((0, []), .int 2)] ∧
+    (Edit.runR Edit.eP (Edit.W.init []) (Edit.rOps.take 11)).ex.inputs = [(0, [.int 1])] ∧
+    Edit.stepCoveredR Edit.eP (Edit.runR Edit.eP (Edit.W.init []) (Edit.rOps.take 11)) (.renameSpace ["A"] "Z") = true ∧
+    (Edit.runR Edit.eP (Edit.W.init []) (Edit.rOps.take 12)).ex.data = [((2, []), .int 2)] ∧
+    (Edit.runR Edit.eP (Edit.W.init []) (Edit.rOps.take 12)).ex.inputs = [] ∧
+    (Edit.runR Edit.eP (Edit.W.init []) (Edit.rOps.take 12)).tabs.ctab = [(["Z"], "f"), (["Z", "Ch"], "g"), (["T"], "f")] ∧
+    Edit.answer Edit.eP (Edit.runR Edit.eP (Edit.W.init []) Edit.rOps) ["Z"] "f" [] = some (.ok (.int 2)) ∧
+    Edit.answer Edit.eP (Edit.runR Edit.eP (Edit.W.init []) Edit.rOps) ["Z", "Ch"] "g" [] = some (.ok (.int 4)) ∧
+    Edit.answer Edit.eP (Edit.runR Edit.eP (Edit.W.init []) Edit.rOps) ["A"] "f" [] = none ∧
+    Edit.answer Edit.eP (Edit.runR Edit.eP (Edit.W.init []) (Edit.noEvalsR Edit.rOps)) ["Z"] "f" [] = some (.ok (.int 2)) := by
+  decide
+
+example (v' : Val)
+    (h2 : Edit.answer Edit.eP (Edit.runR Edit.eP (Edit.W.init []) (Edit.noEvalsR Edit.rOps)) ["Z"] "f" [] = some (.ok v')) :
+    Val.int 2 = v' :=
+  live_equals_edits_only_with_renames Edit.eP idLt idLt_strict [] Edit.rOps Edit.rOps_admissible ["Z"] "f" [] _ _
+    (by decide) h2
+
+/-- **The negative witness for /repo d7248bc** (kernel-checked).  `A.u` UNCACHED, `A.f = lambda: u()`, `A.f()`;
+`A.rename("Z")`.  The clearing of the code covers the rename and leaves no node; with the clearing of the code
+before d7248bc (`Edit.renameClearingPre`: `clear_all_values` only, which does nothing for an uncached cells) the
+coverage check FAILS and the node of `u` – through which values elsewhere may have been computed – stays in the
+trace graph. -/
+theorem coverage_fails_without_clear_obj_of_uncached_cells_on_rename :
+    (Edit.runR Edit.uP (Edit.W.init []) Edit.uOps).ex.data = [((1, []), .int 5)] ∧
+    Edit.stepCoveredR Edit.uP (Edit.runR Edit.uP (Edit.W.init []) Edit.uOps) (.renameSpace ["A"] "Z") = true ∧
+    (Edit.stepR Edit.uP (Edit.runR Edit.uP (Edit.W.init []) Edit.uOps) (.renameSpace ["A"] "Z")).ex.gn = [] ∧
+    Edit.renameCovered (Edit.runR Edit.uP (Edit.W.init []) Edit.uOps).tabs (Edit.runR Edit.uP (Edit.W.init []) Edit.uOps).sm
+      ["A"] (Edit.renameClearingPre Edit.uP (Edit.runR Edit.uP (Edit.W.init []) Edit.uOps).tabs
+        (Edit.runR Edit.uP (Edit.W.init []) Edit.uOps).sm ["A"]) = false ∧
+    (Edit.stepRPre Edit.uP (Edit.runR Edit.uP (Edit.W.init []) Edit.uOps) (.renameSpace ["A"] "Z")).ex.gn = [.obj 0] := by
   decide
 
 end MxModel.C02
